@@ -1,0 +1,9 @@
+//go:build verif
+
+package types
+
+import "sync/atomic"
+
+// VerifSetTimeDelta sets the offset added by Now() without the +-300s clamp of SetTimeDelta
+// (build tag `verif` only; lets a harness drive the clock that mempool expiry reads).
+func VerifSetTimeDelta(dt int64) { atomic.StoreInt64(&deltaTime, dt) }
